@@ -19,7 +19,7 @@ CHECKS = {
          "DESIGN.md section 3 C01"),
  "C16": ("exploration",
          "property-based testing with renderer ground truth: documents rendered by the harness with recorded line / column / char / byte positions of every node; a generic Spanned tree and provoked type errors are compared with them; a consistency predicate re-derives every reported Location from the text",
-         "Random decorated documents (all scalar styles, multi-byte text, anchors / aliases to scalars and containers, block and flow) under layouts with a multi-byte first line, LF / CRLF / lone CR, comments, markers and indentation 2-4: both locations of every node of a generic Spanned<tree> are internally consistent and name the renderer's position (alias use site / anchored definition site), single-line scalar byte ranges equal the written token, a non-integer planted at every scalar leaf of an all-integer typed tree is reported at that leaf (or as the definition site under an alias); 3 fixed documents x every leaf x 586 layouts exhaustively; fixed merge documents for merge use / definition sites; enum payloads in tagged and mapping notation read directly and through an alias; an anchored scalar of the wrong type used through an alias in 11 value positions (field, element, newtype / tuple / struct variant payload, byte element, merge value, merge-sequence element, map value, Option, item) x 4 values x layouts: the error carries the alias as use site and the anchored node as definition site. Exploration.",
+         "Random decorated documents (all scalar styles, multi-byte text, anchors / aliases to scalars and containers, block and flow) under layouts with a multi-byte first line, LF / CRLF / lone CR, comments, markers and indentation 2-4: both locations of every node of a generic Spanned<tree> are internally consistent and name the renderer's position (alias use site / anchored definition site), single-line scalar byte ranges equal the written token, a non-integer planted at every scalar leaf of an all-integer typed tree is reported at that leaf (or as the definition site under an alias); 3 fixed documents x every leaf x 586 layouts exhaustively; fixed merge documents for merge use / definition sites; enum payloads in tagged and mapping notation read directly and through an alias; an anchored scalar of the wrong type used through an alias in 13 value positions (field, element, newtype / tuple / struct variant payload, byte element, merge value, merge-sequence element, map value, Option, item, inside a merged mapping written in place; and a wrong-typed node nested in such a mapping, which has one site only) x 4 values x layouts: the error carries the alias as use site and the anchored node as definition site. Exploration.",
          "below mapping keys and inside replayed content only the definition site of plain nodes is judged (the property speaks of values reached through an alias); block scalars only for consistency; one open finding in the parser dependency (span of a quoted scalar includes trailing blanks / comment) excludes quoted scalars under comment layouts",
          "DESIGN.md section 3 C16"),
  "C14": ("exploration",
@@ -74,7 +74,7 @@ CHECKS = {
          "DESIGN.md section 3 C08"),
  "C18": ("exploration",
          "model-based property testing with harness-rendered documents and ground-truth positions; exhaustive single/double violated-leaf enumeration + proptest documents/streams; recording Localizer as observation channel",
-         "A fixed family of garde+validator types; documents rendered by the harness with every leaf supplied directly / through aliases / through merges; all 21 leaves x 7 supplies (direct, anchored, alias, `<<: *base`, overriding a merged value, merged alias, merged mapping written in place) x 7 entry points x 2 crates x 3 styles with one violated leaf, all 210 leaf pairs, random documents and streams: validated entry points == plain ones when nothing is violated; otherwise the reported path set equals the harness-evaluated constraint set, each path's use site / definition site equal the renderer's ground truth (observed through a recording Localizer and Error::locations()), every failing document of a stream is reported; documents whose root is a sequence of validated structs keep their positions; a violated field filled by its serde default is named by the plain and the miette rendering; a 260 MiB stream of valid documents gives the same items through read and the validating iterators. Exploration over enumerated and sampled documents.",
+         "A fixed family of garde+validator types; documents rendered by the harness with every leaf supplied directly / through aliases / through merges; all 21 leaves x 8 supplies (direct, anchored, alias, `<<: *base`, overriding a merged value, merged alias, merged mapping written in place, alias inside such a mapping) x 7 entry points x 2 crates x 3 styles with one violated leaf, all 210 leaf pairs, random documents and streams: validated entry points == plain ones when nothing is violated; otherwise the reported path set equals the harness-evaluated constraint set, each path's use site / definition site equal the renderer's ground truth (observed through a recording Localizer and Error::locations()), every failing document of a stream is reported; documents whose root is a sequence of validated structs keep their positions; a violated field filled by its serde default is named by the plain and the miette rendering; a 260 MiB stream of valid documents gives the same items through read and the validating iterators. Exploration over enumerated and sampled documents.",
          "trusts the harness' renderer positions and constraint evaluator (cross-checked against the crates' own validate()); use site of values through merges / aliased mappings and locations of validator map entries are not fixed by the docs and only safety-checked",
          "DESIGN.md section 3 C18; notes/report-C18.md"),
  "C07": ("exploration",
